@@ -506,6 +506,41 @@ def trampoline_table(w):
         rows.append((second, {"result": res, "user_applications": au, "builtin_applications": ab, "tail_call_evals": etc,
                               "recursive_applies": len([e for e in r.events if e[0] == "apply"]),
                               "sp1": sp1, "sp2": sp2, "cenv1": cenv1, "cenv2": cenv2, "args2": args2, "tail_env": tail_env, "p2": p2}))
+    # THREE turns; turns 2 and 3 are entered through tail calls whose operator is the same variable, bound to a different procedure
+    # each time (a state machine that tail-calls its parameter `next`): every pending call's operator is evaluated anew
+    if not getattr(w.asp, "missing", False):
+        cenv1, cenv2, cenv3, caller = Frame(None, "closure-env-1"), Frame(None, "closure-env-2"), Frame(None, "closure-env-3"), Frame(None, "caller-env")
+        sp1 = w.scheme_procedure(w.formals(["a"]), [], [w.sym("B1")])
+        sp2 = w.scheme_procedure(w.formals(["x"]), [], [w.sym("B2")])
+        sp3 = w.scheme_procedure(w.formals(["y"]), [], [w.sym("B3")])
+        p1, p2, p3 = w.user(sp1, cenv1), w.user(sp2, cenv2), w.user(sp3, cenv3)
+        a2, a3 = Tok("arg", "W2"), Tok("arg", "W3")
+        envA, envB = Frame(None, "frame-of-turn-1"), Frame(None, "frame-of-turn-2")
+
+        def pending(operand, envx):
+            e = Enum(0, [Enum(0, [w.sym("NEXT"), [w.sym(operand)], envx])])
+            e.name = "TailCall"
+            e.fields[0].name = "Ref"
+            return e
+        val = Enum(1, [Tok("value-of", "final")])
+        val.name = "Value"
+        nexts = [p2, p3]
+
+        def next_value():
+            return ok(w.procedure_value(nexts.pop(0) if len(nexts) > 1 else nexts[0]))
+        r = Run(w, answers={"NEXT": next_value, "XA": ok(a2), "XB": ok(a3)},
+                asp_answers=[ok(pending("XA", envA)), ok(pending("XB", envB)), ok(val)],
+                epc_answers=[ok([p2, [a2]]), ok([p3, [a3]])])
+        try:
+            res = r.run(w.ap, [p1, [Tok("arg", "V1")], caller])
+            au = [e for e in r.events if e[0] == "apply-user"]
+            rows.append(("same-operator-name-other-procedure", {
+                "result": res, "applied": [next((i + 1 for i, sp in enumerate((sp1, sp2, sp3)) if e[1] is sp[0] and e[3] is sp[2]), None) for e in au],
+                "third_args_ok": len(au) == 3 and isinstance(au[2][5], list) and len(au[2][5]) == 1 and au[2][5][0] is a3,
+                "third_env_ok": len(au) == 3 and (au[2][4] is cenv3 or (isinstance(au[2][4], Frame) and au[2][4].parent is cenv3)),
+                "recursive_applies": len([e for e in r.events if e[0] == "apply"])}))
+        except (absint.Stuck, absint.Loop) as e:
+            rows.append(("same-operator-name-other-procedure", {"stuck": str(e)}))
     # the same with the real apply_scheme_procedure: the body's last form is a call, so the tail evaluator hands back a pending
     # call; it must come back to the trampoline unevaluated, be evaluated once there, and the callee must then run as an
     # ordinary application (fresh frame under ITS closure environment)
@@ -1115,6 +1150,57 @@ def error_location_table(w):
     return rows
 
 
+def arity_location_table(w):
+    """apply_procedure on a user procedure given the wrong number of arguments: the error it builds must not carry a location taken
+    from the procedure's own text (its parameter list, its body) — that text belongs to whatever form defined the procedure"""
+    rows = []
+    for shape, fixed, rest, nargs in (("fixed2/1-arg", ["a", "b"], None, 1), ("fixed2/3-args", ["a", "b"], None, 3),
+                                      ("fixed1+rest/0-args", ["a"], "r", 0), ("thunk/1-arg", [], None, 1)):
+        first = w.nloc
+        sp = w.scheme_procedure(w.formals(fixed, rest), [], [w.sym("B1")])
+        callee_locs = {machine.key_of(some([100 + i, 1])) for i in range(first + 1, w.nloc + 1)}
+        cenv, caller = Frame(None, "closure-env"), Frame(None, "caller-env")
+        r = Run(w, follow=[w.asp.name])
+        try:
+            res = r.run(w.ap, [w.user(sp, cenv), [Tok("arg", "V%d" % i) for i in range(nargs)], caller])
+        except (absint.Stuck, absint.Loop) as e:
+            rows.append((shape, {"stuck": str(e)}))
+            continue
+        rows.append((shape, {"result": res, "callee_locs": callee_locs}))
+    return rows
+
+
+def rule_arity_location(ctx, rule):
+    fb = ctx.fb()
+    t = tables(fb)
+    w = t["w"]
+    if "arity-locations" not in t:
+        t["arity-locations"] = arity_location_table(w)
+    n = 0
+    where = mir_where(w.ap)
+    for shape, d in t["arity-locations"]:
+        key = "arity-error/%s" % shape
+        if "stuck" in d:
+            ctx.undecided(rule, key, "abstract evaluation could not follow the application (%s)" % d["stuck"], where)
+            continue
+        res = d["result"]
+        locd = [x for x in find_enum(res, "Located") if len(x.fields) > 1]
+        if getattr(res, "name", None) != "Err" or not locd:
+            ctx.undecided(rule, key, "the wrong argument count does not come out as a located-or-not error here (%r): decided by C08" % (res,), where)
+            continue
+        loc = locd[0].fields[1]
+        absent = loc is None or (isinstance(loc, Enum) and loc.variant == 0)
+        n += 1
+        bad = (not absent) and machine.key_of(loc) in d["callee_locs"]
+        ctx.inst(rule, key, {"location": "absent" if absent else ("of the callee's text" if bad else "other")})
+        ctx.oblige(not bad)
+        if bad:
+            ctx.report(rule, key, "the error for a wrong number of arguments carries the location of the CALLED procedure's own text (its "
+                       "parameter list or body): a procedure defined in one top-level form and called wrongly in another is reported inside "
+                       "the form that defined it, not the one that failed", where)
+    return n
+
+
 def library_nontail_native_call(repo=None):
     """(procedure, call) — a procedure that scheme/base.sld defines in Scheme whose body holds, in operand position (so: not a tail
     call), a call of car / cdr: the witness that library text is evaluated by the same evaluator with a failing builtin below it"""
@@ -1218,6 +1304,16 @@ def rule_trampoline(ctx, rule, aspects):
                 continue
             v.row(key, d, [])
             continue
+        if second == "same-operator-name-other-procedure":
+            if "rebind" not in aspects:
+                continue
+            v.row(key, d, [
+                (d["recursive_applies"] == 0, "the trampoline calls apply_procedure recursively for a pending tail call"),
+                (d["applied"] == [1, 2, 3] and d["third_args_ok"] and d["third_env_ok"],
+                 "three turns whose second and third are entered through the same operator name, bound to a different procedure each "
+                 "time, apply the procedures %s (expected 1, 2, 3, the third on its own argument under its own closure environment): the "
+                 "operator of a pending call must be evaluated every time, the name says nothing about the procedure" % (d["applied"],))])
+            continue
         if second == "closure-made-in-the-finished-frame":
             if not (set(aspects) & {"rebind", "frame"}):
                 continue
@@ -1272,9 +1368,21 @@ def rule_trampoline(ctx, rule, aspects):
                 ]
             v.row(key, d, checks)
             continue
-        if not (set(aspects) & {"rebind", "arity", "env"}):
+        if not (set(aspects) & {"rebind", "arity", "env", "closure-env"}):
             continue
         au, ab, etc, res = d["user_applications"], d["builtin_applications"], d["tail_call_evals"], d["result"]
+        if set(aspects) == {"frame", "closure-env"} or set(aspects) == {"closure-env"}:
+            # only the closure aspect: two closures of one lambda expression are two procedures; a tail call from one to the other
+            # runs the body under the environment the callee captured
+            if second != "same-code-other-env":
+                continue
+
+            def env_of0(x, cenv):
+                return x is cenv or (isinstance(x, Frame) and x.parent is cenv)
+            v.row(key, d, [(len(au) == 2 and env_of0(au[1][4], d["cenv2"]) and not env_of0(au[1][4], d["cenv1"]),
+                            "a tail call from one closure to another closure of the same lambda expression runs the body in the "
+                            "caller's captured environment: the two closures share what each should keep for itself")])
+            continue
 
         def env_of(x, cenv):
             # the captured environment itself, or (when the trampoline creates the body frame) a fresh child of it
@@ -1431,6 +1539,65 @@ def vector_table(w):
                 rows.append(((name, mutable, k, eq_row), {"result": res, "store": list(store), "e0": e0, "e1": e1, "new": newv,
                                                   "panics": [e for e in r.mc.events if e[0] == "panic"]}))
     return rows
+
+
+def eqv_table(w):
+    """the native eqv? / eq? on every ordered pair of sample values of the atomic kinds: a symbol, a string, a boolean, a character and
+    an exact integer that spell or hold the same thing are still different objects of different kinds"""
+    fb = w.fb
+    num = dict((n, i) for i, n in fb.variants("values::Number"))
+    f = fb.find("interpreter::library::native::base::eqv")
+    samples = [("symbol b", lambda: w.named(w.val, "Symbol", ["b"])), ("symbol c", lambda: w.named(w.val, "Symbol", ["c"])),
+               ("string b", lambda: w.named(w.val, "String", ["b"])), ("string c", lambda: w.named(w.val, "String", ["c"])),
+               ("#t", lambda: w.named(w.val, "Boolean", [True])), ("#f", lambda: w.named(w.val, "Boolean", [False])),
+               ("character b", lambda: w.named(w.val, "Character", [98])), ("character c", lambda: w.named(w.val, "Character", [99])),
+               ("integer 98", lambda: w.named(w.val, "Number", [w.named(num, "Integer", [98])])),
+               ("integer 1", lambda: w.named(w.val, "Number", [w.named(num, "Integer", [1])]))]
+    rows = []
+    for na, mka in samples:
+        for nb, mkb in samples:
+            same_kind = na.split()[0] == nb.split()[0] or (na in ("#t", "#f") and nb in ("#t", "#f"))
+            if na.startswith("string") and nb == na:
+                continue                    # (eqv? of two strings with the same characters is not specified)
+            want = (na == nb)
+            r = Run(w)
+            try:
+                res = r.run(f, [[mka(), mkb()]])
+            except (absint.Stuck, absint.Loop) as e:
+                rows.append(((na, nb), {"stuck": str(e)}))
+                continue
+            got = None
+            if isinstance(res, Enum) and getattr(res, "name", None) == "Ok" and res.fields and isinstance(res.fields[0], Enum) \
+                    and getattr(res.fields[0], "name", None) == "Boolean" and isinstance(res.fields[0].fields[0], bool):
+                got = res.fields[0].fields[0]
+            rows.append(((na, nb), {"got": got, "want": want, "result": res}))
+    return f, rows
+
+
+def rule_eqv_kinds(ctx, rule):
+    fb = ctx.fb()
+    from .ctx import where_of
+    t = tables(fb)
+    w = t["w"]
+    try:
+        f, rows = eqv_table(w)
+    except mir.AnchorMissing as e:
+        ctx.undecided(rule, "eqv", str(e))
+        return 0
+    n = 0
+    for (na, nb), d in rows:
+        key = "eqv/%s/%s" % (na, nb)
+        if "stuck" in d or d["got"] is None:
+            ctx.undecided(rule, key, "cannot follow the native eqv? on (%s, %s) (%s)" % (na, nb, d.get("stuck") or repr(d.get("result"))), where_of(f))
+            continue
+        n += 1
+        good = d["got"] == d["want"]
+        ctx.inst(rule, key, {"answer": d["got"]})
+        ctx.oblige(good)
+        if not good:
+            ctx.report(rule, key, "(eqv? <%s> <%s>) answers %s, R7RS 6.1 says %s: memq, memv and the leaves of equal? compare with this "
+                       "procedure" % (na, nb, "#t" if d["got"] else "#f", "#t" if d["want"] else "#f"), where_of(f))
+    return n
 
 
 def rule_vector(ctx, rule):
